@@ -1,8 +1,9 @@
 (* C01 driver.  Same case lines as harness/src/bin/c01.rs:
    e2e msg=<m>,<s>,<a>,<p>,<fields>,<body>,<trailers> resp=<status>,<fields>,<body>,<trailers> wire=<w> budget=<b> sched=<mode><seed> split=0|1 [grease=0|1]
-   model column: the executable pipeline of Model/EndToEnd.v (sender program -> frames -> bytes written under an
-   acceptance script derived from budget= -> chunks derived from wire= -> receive machine polled per a pattern derived
-   from sched= -> decoded events), for the request and for the response;
+   model column: the executable pipeline of Model/EndToEndH3.v - C12 header mapping model, reference field-section
+   coding, C14 WriteBuf model drained under an acceptance script derived from budget=, chunks derived from wire=, the
+   incremental reference reader polled per a pattern derived from sched=, C12 receive gate - for the request and for
+   the response (the pipeline of C01_request_fidelity_reference_reader / C01_response_fidelity_reference_reader);
    spec column: Spec/EndToEndSpec.v expected_events (the normalised message itself). *)
 let gen_byte seed i =
   let x = (seed * 31 + i) land 0xFFFFFF in
@@ -57,6 +58,14 @@ let show_events tag (show_head : 'h -> string) (evs : ('h, (n list * n list list
     tag (match trl with [] -> "n" | [t] -> show_groups t | _ -> "many")
     tag bends
     tag (if ends = 1 && last_is_end then "none" else Printf.sprintf "ends%d" ends)
+(* what the server application reads off the delivered http::Request of the C12 model *)
+let show_h3_req (r : request) =
+  let u = r.rq_uri in
+  Printf.sprintf "q.m=%s q.s=%s q.a=%s q.p=%s q.h=%s" (hex_of_bytes r.rq_method) (show_opt (uri_scheme_str u))
+    (show_opt (uri_authority u))
+    (match uri_path_and_query u with None -> "-" | Some q -> show_opt (Some (pq_as_str q)))
+    (show_groups r.rq_headers)
+let show_h3_resp (w : response) = Printf.sprintf "r.st=%s r.h=%s" (string_of_n w.rs_status) (show_groups w.rs_headers)
 let show_req (v : req_seen) =
   Printf.sprintf "q.m=%s q.s=%s q.a=%s q.p=%s q.h=%s" (hex_of_bytes v.v_method) (show_opt v.v_scheme)
     (show_opt v.v_authority) (show_opt v.v_path) (show_groups v.v_fields)
@@ -85,23 +94,34 @@ let handle ws = match ws with
            let q = { q_method = bytes_of_hex m; q_scheme = opt_hex s; q_authority = opt_hex a; q_path = opt_hex p;
                      q_fields = parse_fields f } in
            let qm = { m_head = q; m_pieces = parse_body b; m_trailers = (if t = "n" then None else Some (parse_fields t)) } in
-           let r = { p_status = n_of_string st; p_fields = parse_fields rf } in
+           let r : resp_head = { rp_status = n_of_string st; rp_fields = parse_fields rf } in
            let rm = { m_head = r; m_pieces = parse_body rb; m_trailers = (if rt = "n" then None else Some (parse_fields rt)) } in
            if not (request_wf q) then "err c.send_request | err c.send_request" else begin
+           (match mk_uri q.q_scheme q.q_authority q.q_path with
+            | None -> "err model-uri | err model-uri"
+            | Some u ->
+           let hq = { cq_method = q.q_method; cq_uri = u; cq_fields = mk_hmap q.q_fields; cq_ext = None } in
+           let hqm = { m_head = hq; m_pieces = qm.m_pieces;
+                       m_trailers = (match qm.m_trailers with None -> None | Some t -> Some (mk_hmap t)) } in
+           let hrm = { m_head = { cp_status = r.rp_status; cp_fields = mk_hmap r.rp_fields }; m_pieces = rm.m_pieces;
+                       m_trailers = (match rm.m_trailers with None -> None | Some t -> Some (mk_hmap t)) } in
            (* the grease value is h3's random choice; the outcome must not depend on it *)
            let g () = if grease then Some (n_of_int (next () mod 1000000)) else None in
-           let run_q = ref_request_outcome (g ()) qm (amounts budget 4096) (amounts wire 256)
+           (* the WriteBuf model recomputes remaining() at every write: keep (script steps) x (body size) bounded *)
+           let steps m = let total = List.fold_left (fun a p -> a + List.length p) 0 m.m_pieces in
+                         max 16 (min 2048 (1_000_000 / (total + 1))) in
+           let run_q = h3_request_outcome (g ()) hqm (amounts budget (steps hqm)) (amounts wire 256)
                          (List.init 256 (fun _ -> n_of_int (next () mod 3))) in
            (* the server's first finished request also carries a grease frame when grease is on *)
-           let run_r = ref_response_outcome (g ()) rm (amounts budget 4096) (amounts wire 256)
+           let run_r = h3_response_outcome (g ()) hrm (amounts budget (steps hrm)) (amounts wire 256)
                          (List.init 256 (fun _ -> n_of_int (next () mod 3))) in
            let model = (match run_q, run_r with
-             | Some eq, Some er -> "ok " ^ show_events "q" show_req eq ^ " " ^ show_events "r" show_resp er
+             | Some eq, Some er -> "ok " ^ show_events "q" show_h3_req eq ^ " " ^ show_events "r" show_h3_resp er
              | None, _ -> "err model-send-request"
              | _, None -> "err model-send-response") in
            let spec = "ok " ^ show_events "q" show_req (expected_events norm_request norm_trailers qm) ^ " "
                       ^ show_events "r" show_resp (expected_events norm_response norm_trailers rm) in
-           model ^ " | " ^ spec end
+           model ^ " | " ^ spec) end
        | _ -> "driver-error bad-message")
   | _ -> "driver-error unknown-case"
 (* the extracted functions are not tail recursive and work on long lists: a large minor heap keeps the GC out of the way *)
